@@ -848,8 +848,9 @@ impl HttpRequest for Http {
             }
             let mut uri = parts.uri.to_string();
             let mut cup = None;
-            if let Some(q) = parts.uri.query() {
-                for kv in q.split('&') {
+            if let (Some(q), true) = (parts.uri.query(), w.cup_keys.is_some()) {
+                // the decoration is the last parameter (the service URL may carry a cup2key of its own)
+                for kv in q.rsplit('&').take(1) {
                     if let Some(val) = kv.strip_prefix("cup2key=") {
                         if let Some((kid, nonce)) = val.split_once(':') {
                             let n = w.nonces.len() as u64;
